@@ -1,4 +1,1178 @@
-pub fn main(_ctx: &vcore::Ctx) {
-    eprintln!("not built yet");
-    std::process::exit(2);
+//! C37 — QoS validation: inconsistent and immutable changes are rejected atomically; every accepted QoS is
+//! returned by get_qos and announced to remote participants.
+//!
+//! One entity under test (topic / publisher / subscriber / writer / reader), created enabled or disabled
+//! with a generated QoS, then a sequence of set_qos (current or default QoS with 1–3 generated policy
+//! changes), get_qos, enable and (in a fraction of the cases) discovery checkpoints where a second
+//! participant's builtin readers must show the accepted policies. The expected result of every call comes
+//! from the DDS 1.4 consistency rules and "Changeable" column, transcribed below.
+
+use std::fmt::Debug;
+
+use dust_dds::{
+    builtin_topics::{PublicationBuiltinTopicData, SubscriptionBuiltinTopicData},
+    dds_async::{
+        data_reader::DataReaderAsync, data_writer::DataWriterAsync, domain_participant::DomainParticipantAsync,
+        publisher::PublisherAsync, subscriber::SubscriberAsync, topic::TopicAsync,
+    },
+    infrastructure::{
+        error::DdsResult,
+        listener::NO_LISTENER,
+        qos::{DataReaderQos, DataWriterQos, DomainParticipantQos, PublisherQos, QosKind, SubscriberQos, TopicQos},
+        qos_policy::{
+            DataRepresentationQosPolicy, DeadlineQosPolicy, DestinationOrderQosPolicy, DestinationOrderQosPolicyKind,
+            DurabilityQosPolicy, DurabilityQosPolicyKind, EntityFactoryQosPolicy, GroupDataQosPolicy,
+            HistoryQosPolicy, HistoryQosPolicyKind, LatencyBudgetQosPolicy, Length, LifespanQosPolicy,
+            LivelinessQosPolicy, LivelinessQosPolicyKind, OwnershipQosPolicy, OwnershipQosPolicyKind,
+            OwnershipStrengthQosPolicy, PartitionQosPolicy, PresentationQosPolicy,
+            PresentationQosPolicyAccessScopeKind, ReaderDataLifecycleQosPolicy, ReliabilityQosPolicy,
+            ReliabilityQosPolicyKind, ResourceLimitsQosPolicy, TimeBasedFilterQosPolicy, TopicDataQosPolicy,
+            TransportPriorityQosPolicy, TypeConsistencyEnforcementQosPolicy, TypeConsistencyKind, UserDataQosPolicy,
+            WriterDataLifecycleQosPolicy,
+        },
+        sample_info::{ANY_INSTANCE_STATE, ANY_SAMPLE_STATE, ANY_VIEW_STATE},
+        status::NO_STATUS,
+        time::{Duration, DurationKind},
+    },
+};
+use proptest::prelude::*;
+use serde::{Deserialize, Serialize};
+use serde_json::json;
+use sim::{
+    case::{CaseResult, apply_abort, sim_stats},
+    exec,
+    props::{Campaign, campaign},
+    types::KeyedData,
+    util::{factory, wait_until},
+};
+use vcore::{Ctx, Meta, fork::Limits};
+
+use crate::common::{Mismatch, R, call, pick_verdict, r_of};
+
+// ------------------------------------------------------------------------------------------------
+// case encoding
+
+#[derive(Clone, Copy, Debug, PartialEq, Eq, Serialize, Deserialize)]
+pub enum Kind {
+    Topic,
+    Publisher,
+    Subscriber,
+    Writer,
+    Reader,
+}
+
+impl Kind {
+    fn name(self) -> &'static str {
+        match self {
+            Kind::Topic => "topic",
+            Kind::Publisher => "publisher",
+            Kind::Subscriber => "subscriber",
+            Kind::Writer => "writer",
+            Kind::Reader => "reader",
+        }
+    }
+}
+
+/// Duration in ticks of 1/512 s (exactly representable in every time format involved); None = infinite.
+pub type Dur = Option<u32>;
+/// Resource limit; None = unlimited.
+pub type Lim = Option<u8>;
+
+/// One policy change. Policies an entity kind does not have are never generated for it.
+#[derive(Clone, Debug, PartialEq, Serialize, Deserialize)]
+pub enum Mut {
+    Durability(u8),
+    Deadline(Dur),
+    LatencyBudget(Dur),
+    Liveliness(u8, Dur),
+    Reliability(bool, Dur),
+    DestinationOrder(bool),
+    History(Option<u8>),
+    ResourceLimits(Lim, Lim, Lim),
+    TransportPriority(i32),
+    Lifespan(Dur),
+    UserData(Vec<u8>),
+    TopicData(Vec<u8>),
+    GroupData(Vec<u8>),
+    Ownership(bool),
+    OwnershipStrength(i32),
+    WriterDataLifecycle(bool),
+    TimeBasedFilter(u32),
+    ReaderDataLifecycle(Dur, Dur),
+    Representation(Vec<i16>),
+    Presentation(u8, bool, bool),
+    Partition(Vec<String>),
+    EntityFactory(bool),
+    TypeConsistency(bool, u8),
+}
+
+impl Mut {
+    fn policy(&self) -> &'static str {
+        match self {
+            Mut::Durability(_) => "durability",
+            Mut::Deadline(_) => "deadline",
+            Mut::LatencyBudget(_) => "latency_budget",
+            Mut::Liveliness(..) => "liveliness",
+            Mut::Reliability(..) => "reliability",
+            Mut::DestinationOrder(_) => "destination_order",
+            Mut::History(_) => "history",
+            Mut::ResourceLimits(..) => "resource_limits",
+            Mut::TransportPriority(_) => "transport_priority",
+            Mut::Lifespan(_) => "lifespan",
+            Mut::UserData(_) => "user_data",
+            Mut::TopicData(_) => "topic_data",
+            Mut::GroupData(_) => "group_data",
+            Mut::Ownership(_) => "ownership",
+            Mut::OwnershipStrength(_) => "ownership_strength",
+            Mut::WriterDataLifecycle(_) => "writer_data_lifecycle",
+            Mut::TimeBasedFilter(_) => "time_based_filter",
+            Mut::ReaderDataLifecycle(..) => "reader_data_lifecycle",
+            Mut::Representation(_) => "representation",
+            Mut::Presentation(..) => "presentation",
+            Mut::Partition(_) => "partition",
+            Mut::EntityFactory(_) => "entity_factory",
+            Mut::TypeConsistency(..) => "type_consistency",
+        }
+    }
+}
+
+#[derive(Clone, Debug, PartialEq, Serialize, Deserialize)]
+pub enum Op {
+    /// set_qos(current accepted QoS, or the factory default when `from_default`, with `muts` applied)
+    SetQos { from_default: bool, muts: Vec<Mut> },
+    /// set_qos(QosKind::Default)
+    SetDefault,
+    Enable,
+    /// discovery checkpoint (only in e2e cases)
+    Sync,
+}
+
+#[derive(Clone, Debug, Serialize, Deserialize)]
+pub struct Case {
+    pub kind: Kind,
+    /// factory's autoenable_created_entities when the entity under test is created
+    pub autoenable: bool,
+    /// None = QosKind::Default, Some(muts) = default QoS with these changes
+    pub create: Option<Vec<Mut>>,
+    pub ops: Vec<Op>,
+    /// second participant observing the announcements
+    pub e2e: bool,
+}
+
+fn dur_strategy() -> impl Strategy<Value = Dur> {
+    prop_oneof![2 => Just(None), 5 => prop_oneof![Just(1u32), Just(5), Just(51), Just(512), Just(2560)].prop_map(Some)]
+}
+fn lim_strategy() -> impl Strategy<Value = Lim> {
+    prop_oneof![2 => Just(None), 5 => (1u8..=6).prop_map(Some)]
+}
+fn bytes_strategy() -> impl Strategy<Value = Vec<u8>> {
+    prop::collection::vec(any::<u8>(), 0..4)
+}
+
+fn mut_strategy(kind: Kind) -> BoxedStrategy<Mut> {
+    let durability = (0u8..4).prop_map(Mut::Durability).boxed();
+    let deadline = dur_strategy().prop_map(Mut::Deadline).boxed();
+    let latency = prop_oneof![Just(Some(0u32)), dur_strategy()].prop_map(Mut::LatencyBudget).boxed();
+    let liveliness = (0u8..3, dur_strategy()).prop_map(|(k, d)| Mut::Liveliness(k, d)).boxed();
+    let reliability = (any::<bool>(), dur_strategy()).prop_map(|(k, d)| Mut::Reliability(k, d)).boxed();
+    let dest = any::<bool>().prop_map(Mut::DestinationOrder).boxed();
+    let history = prop_oneof![1 => Just(None), 4 => (1u8..=7).prop_map(Some)].prop_map(Mut::History).boxed();
+    let limits = (lim_strategy(), lim_strategy(), lim_strategy()).prop_map(|(a, b, c)| Mut::ResourceLimits(a, b, c)).boxed();
+    let prio = (-3i32..4).prop_map(Mut::TransportPriority).boxed();
+    let lifespan = dur_strategy().prop_map(Mut::Lifespan).boxed();
+    let user = bytes_strategy().prop_map(Mut::UserData).boxed();
+    let topicd = bytes_strategy().prop_map(Mut::TopicData).boxed();
+    let groupd = bytes_strategy().prop_map(Mut::GroupData).boxed();
+    let own = any::<bool>().prop_map(Mut::Ownership).boxed();
+    let strength = (0i32..5).prop_map(Mut::OwnershipStrength).boxed();
+    let wdl = any::<bool>().prop_map(Mut::WriterDataLifecycle).boxed();
+    let tbf = prop_oneof![Just(0u32), Just(1), Just(5), Just(51), Just(512), Just(2560)].prop_map(Mut::TimeBasedFilter).boxed();
+    let rdl = (dur_strategy(), dur_strategy()).prop_map(|(a, b)| Mut::ReaderDataLifecycle(a, b)).boxed();
+    let wrepr = prop_oneof![3 => Just(vec![]), 3 => Just(vec![0i16]), 3 => Just(vec![2i16]), 1 => Just(vec![0i16, 2]), 1 => Just(vec![2i16, 0])]
+        .prop_map(Mut::Representation)
+        .boxed();
+    let pres = (0u8..2, any::<bool>(), any::<bool>()).prop_map(|(a, b, c)| Mut::Presentation(a, b, c)).boxed();
+    let part = prop::collection::vec(prop_oneof![Just("A".to_string()), Just("B".to_string()), Just("A*".to_string()), Just(String::new())], 0..3)
+        .prop_map(Mut::Partition)
+        .boxed();
+    let ef = any::<bool>().prop_map(Mut::EntityFactory).boxed();
+    let tc = (any::<bool>(), 0u8..32).prop_map(|(k, b)| Mut::TypeConsistency(k, b)).boxed();
+    let w = |v: Vec<(u32, BoxedStrategy<Mut>)>| proptest::strategy::Union::new_weighted(v).boxed();
+    match kind {
+        Kind::Topic => w(vec![
+            (1, durability), (1, deadline), (1, latency), (1, liveliness), (1, reliability), (1, dest), (2, history), (2, limits),
+            (1, prio), (1, lifespan), (2, topicd), (1, own), (1, wrepr),
+        ]),
+        Kind::Writer => w(vec![
+            (1, durability), (1, deadline), (1, latency), (1, liveliness), (1, reliability), (1, dest), (2, history), (2, limits),
+            (1, prio), (1, lifespan), (2, user), (1, own), (1, strength), (1, wdl), (1, wrepr),
+        ]),
+        Kind::Reader => w(vec![
+            (1, durability), (2, deadline), (1, latency), (1, liveliness), (1, reliability), (1, dest), (2, history), (2, limits),
+            (2, user), (1, own), (2, tbf), (1, rdl), (1, wrepr), (1, tc),
+        ]),
+        Kind::Publisher | Kind::Subscriber => w(vec![(2, pres), (3, part), (3, groupd), (1, ef)]),
+    }
+}
+
+pub fn strategy(thorough: bool) -> BoxedStrategy<Case> {
+    let max_ops = if thorough { 24 } else { 12 };
+    (
+        prop_oneof![1 => Just(Kind::Topic), 1 => Just(Kind::Publisher), 1 => Just(Kind::Subscriber), 2 => Just(Kind::Writer), 2 => Just(Kind::Reader)],
+        prop_oneof![3 => Just(true), 2 => Just(false)],
+        prop_oneof![4 => Just(false), 1 => Just(true)],
+    )
+        .prop_flat_map(move |(kind, autoenable, e2e)| {
+            let m = mut_strategy(kind);
+            let muts = prop::collection::vec(m.clone(), 1..=3);
+            let create = prop_oneof![1 => Just(None), 3 => prop::collection::vec(m, 0..=3).prop_map(Some)];
+            let can_enable = matches!(kind, Kind::Topic | Kind::Writer | Kind::Reader);
+            let op = prop_oneof![
+                12 => (prop_oneof![9 => Just(false), 1 => Just(true)], muts).prop_map(|(from_default, muts)| Op::SetQos { from_default, muts }),
+                1 => Just(Op::SetDefault),
+                (if can_enable { 2 } else { 0 }) => Just(Op::Enable),
+                (if e2e { 3 } else { 0 }) => Just(Op::Sync),
+            ];
+            (create, prop::collection::vec(op, 1..=max_ops)).prop_map(move |(create, ops)| Case { kind, autoenable, create, ops, e2e })
+        })
+        .boxed()
+}
+
+// ------------------------------------------------------------------------------------------------
+// QoS model: consistency and changeability per DDS 1.4 (2.2.3, table "Changeable"), XTypes 1.3 7.6.3
+
+fn dk(d: &Dur) -> DurationKind {
+    match d {
+        None => DurationKind::Infinite,
+        Some(t) => DurationKind::Finite(Duration::new((t / 512) as i32, (t % 512) * 1_953_125)),
+    }
+}
+fn len(l: &Lim) -> Length {
+    match l {
+        None => Length::Unlimited,
+        Some(v) => Length::Limited(*v as i32),
+    }
+}
+fn durability(k: u8) -> DurabilityQosPolicy {
+    DurabilityQosPolicy {
+        kind: match k {
+            0 => DurabilityQosPolicyKind::Volatile,
+            1 => DurabilityQosPolicyKind::TransientLocal,
+            2 => DurabilityQosPolicyKind::Transient,
+            _ => DurabilityQosPolicyKind::Persistent,
+        },
+    }
+}
+fn liveliness(k: u8, d: &Dur) -> LivelinessQosPolicy {
+    LivelinessQosPolicy {
+        kind: match k {
+            0 => LivelinessQosPolicyKind::Automatic,
+            1 => LivelinessQosPolicyKind::ManualByParticipant,
+            _ => LivelinessQosPolicyKind::ManualByTopic,
+        },
+        lease_duration: dk(d),
+    }
+}
+fn reliability(r: bool, d: &Dur) -> ReliabilityQosPolicy {
+    ReliabilityQosPolicy {
+        kind: if r { ReliabilityQosPolicyKind::Reliable } else { ReliabilityQosPolicyKind::BestEffort },
+        max_blocking_time: dk(d),
+    }
+}
+fn dest_order(s: bool) -> DestinationOrderQosPolicy {
+    DestinationOrderQosPolicy {
+        kind: if s { DestinationOrderQosPolicyKind::BySourceTimestamp } else { DestinationOrderQosPolicyKind::ByReceptionTimestamp },
+    }
+}
+fn history(h: &Option<u8>) -> HistoryQosPolicy {
+    HistoryQosPolicy {
+        kind: match h {
+            None => HistoryQosPolicyKind::KeepAll,
+            Some(d) => HistoryQosPolicyKind::KeepLast(*d as u32),
+        },
+    }
+}
+fn limits(a: &Lim, b: &Lim, c: &Lim) -> ResourceLimitsQosPolicy {
+    ResourceLimitsQosPolicy { max_samples: len(a), max_instances: len(b), max_samples_per_instance: len(c) }
+}
+fn ownership(e: bool) -> OwnershipQosPolicy {
+    OwnershipQosPolicy { kind: if e { OwnershipQosPolicyKind::Exclusive } else { OwnershipQosPolicyKind::Shared } }
+}
+fn presentation(a: u8, c: bool, o: bool) -> PresentationQosPolicy {
+    PresentationQosPolicy {
+        access_scope: if a == 0 { PresentationQosPolicyAccessScopeKind::Instance } else { PresentationQosPolicyAccessScopeKind::Topic },
+        coherent_access: c,
+        ordered_access: o,
+    }
+}
+fn type_consistency(k: bool, b: u8) -> TypeConsistencyEnforcementQosPolicy {
+    TypeConsistencyEnforcementQosPolicy {
+        kind: if k { TypeConsistencyKind::AllowTypeCoercion } else { TypeConsistencyKind::DisallowTypeCoercion },
+        ignore_sequence_bounds: b & 1 != 0,
+        ignore_string_bounds: b & 2 != 0,
+        ignore_member_names: b & 4 != 0,
+        prevent_type_widening: b & 8 != 0,
+        force_type_validation: b & 16 != 0,
+    }
+}
+
+#[derive(Clone, Copy, PartialEq, Eq, Debug)]
+enum Tri {
+    No,
+    Yes,
+    /// the specifications leave it open (or dust-dds documents its own choice): both results accepted
+    Either,
+}
+
+/// RESOURCE_LIMITS/HISTORY consistency (DDS 1.4 2.2.3.19, 2.2.3.18): depth <= max_samples_per_instance,
+/// max_samples >= max_samples_per_instance. A limited max_samples with unlimited max_samples_per_instance
+/// is read both ways by implementations -> Either.
+fn limits_inconsistent(h: &HistoryQosPolicy, r: &ResourceLimitsQosPolicy) -> (Tri, &'static str) {
+    if let (HistoryQosPolicyKind::KeepLast(d), Length::Limited(m)) = (&h.kind, &r.max_samples_per_instance) {
+        if *d as i64 > *m as i64 {
+            return (Tri::Yes, "depth>max_samples_per_instance");
+        }
+    }
+    match (&r.max_samples, &r.max_samples_per_instance) {
+        (Length::Limited(a), Length::Limited(b)) if a < b => (Tri::Yes, "max_samples<max_samples_per_instance"),
+        (Length::Limited(_), Length::Unlimited) => (Tri::Either, "max_samples-limited-with-unlimited-per-instance"),
+        _ => (Tri::No, ""),
+    }
+}
+
+fn dur_lt(a: &DurationKind, b: &DurationKind) -> bool {
+    match (a, b) {
+        (DurationKind::Infinite, _) => false,
+        (DurationKind::Finite(_), DurationKind::Infinite) => true,
+        (DurationKind::Finite(x), DurationKind::Finite(y)) => x < y,
+    }
+}
+
+pub trait QosModel: Clone + PartialEq + Debug + Default + 'static {
+    fn apply(&mut self, m: &Mut);
+    /// (inconsistent?, which rule)
+    fn inconsistent(&self) -> (Tri, &'static str);
+    /// policies that differ and must not change once enabled; second list: differ, changeability tolerated
+    fn immutable_diff(&self, other: &Self) -> (Vec<&'static str>, Vec<&'static str>);
+}
+
+macro_rules! diff {
+    ($v:ident, $a:expr, $b:expr, $($f:ident),*) => { $( if $a.$f != $b.$f { $v.push(stringify!($f)); } )* };
+}
+
+impl QosModel for TopicQos {
+    fn apply(&mut self, m: &Mut) {
+        match m {
+            Mut::Durability(k) => self.durability = durability(*k),
+            Mut::Deadline(d) => self.deadline = DeadlineQosPolicy { period: dk(d) },
+            Mut::LatencyBudget(d) => self.latency_budget = LatencyBudgetQosPolicy { duration: dk(d) },
+            Mut::Liveliness(k, d) => self.liveliness = liveliness(*k, d),
+            Mut::Reliability(r, d) => self.reliability = reliability(*r, d),
+            Mut::DestinationOrder(s) => self.destination_order = dest_order(*s),
+            Mut::History(h) => self.history = history(h),
+            Mut::ResourceLimits(a, b, c) => self.resource_limits = limits(a, b, c),
+            Mut::TransportPriority(v) => self.transport_priority = TransportPriorityQosPolicy { value: *v },
+            Mut::Lifespan(d) => self.lifespan = LifespanQosPolicy { duration: dk(d) },
+            Mut::TopicData(v) => self.topic_data = TopicDataQosPolicy { value: v.iter().map(|x| *x as _).collect() },
+            Mut::Ownership(e) => self.ownership = ownership(*e),
+            Mut::Representation(v) => self.representation = DataRepresentationQosPolicy { value: v.iter().map(|x| *x as _).collect() },
+            _ => {}
+        }
+    }
+    fn inconsistent(&self) -> (Tri, &'static str) {
+        limits_inconsistent(&self.history, &self.resource_limits)
+    }
+    fn immutable_diff(&self, o: &Self) -> (Vec<&'static str>, Vec<&'static str>) {
+        let mut v = vec![];
+        diff!(v, self, o, durability, liveliness, reliability, destination_order, history, resource_limits, ownership, representation);
+        (v, vec![])
+    }
+}
+
+impl QosModel for DataWriterQos {
+    fn apply(&mut self, m: &Mut) {
+        match m {
+            Mut::Durability(k) => self.durability = durability(*k),
+            Mut::Deadline(d) => self.deadline = DeadlineQosPolicy { period: dk(d) },
+            Mut::LatencyBudget(d) => self.latency_budget = LatencyBudgetQosPolicy { duration: dk(d) },
+            Mut::Liveliness(k, d) => self.liveliness = liveliness(*k, d),
+            Mut::Reliability(r, d) => self.reliability = reliability(*r, d),
+            Mut::DestinationOrder(s) => self.destination_order = dest_order(*s),
+            Mut::History(h) => self.history = history(h),
+            Mut::ResourceLimits(a, b, c) => self.resource_limits = limits(a, b, c),
+            Mut::TransportPriority(v) => self.transport_priority = TransportPriorityQosPolicy { value: *v },
+            Mut::Lifespan(d) => self.lifespan = LifespanQosPolicy { duration: dk(d) },
+            Mut::UserData(v) => self.user_data = UserDataQosPolicy { value: v.iter().map(|x| *x as _).collect() },
+            Mut::Ownership(e) => self.ownership = ownership(*e),
+            Mut::OwnershipStrength(v) => self.ownership_strength = OwnershipStrengthQosPolicy { value: *v },
+            Mut::WriterDataLifecycle(a) => {
+                self.writer_data_lifecycle = WriterDataLifecycleQosPolicy { autodispose_unregistered_instances: *a }
+            }
+            Mut::Representation(v) => self.representation = DataRepresentationQosPolicy { value: v.iter().map(|x| *x as _).collect() },
+            _ => {}
+        }
+    }
+    fn inconsistent(&self) -> (Tri, &'static str) {
+        let l = limits_inconsistent(&self.history, &self.resource_limits);
+        if l.0 == Tri::Yes {
+            return l;
+        }
+        // XTypes 1.3 7.6.3.1.1: a writer offers exactly one representation (the first of its list); dust-dds
+        // documents "no more than one value" as inconsistent. Both accepted.
+        if self.representation.value.len() > 1 {
+            return (Tri::Either, "writer-with-several-representations");
+        }
+        l
+    }
+    fn immutable_diff(&self, o: &Self) -> (Vec<&'static str>, Vec<&'static str>) {
+        let mut v = vec![];
+        diff!(v, self, o, durability, liveliness, reliability, destination_order, history, resource_limits, ownership, representation);
+        (v, vec![])
+    }
+}
+
+impl QosModel for DataReaderQos {
+    fn apply(&mut self, m: &Mut) {
+        match m {
+            Mut::Durability(k) => self.durability = durability(*k),
+            Mut::Deadline(d) => self.deadline = DeadlineQosPolicy { period: dk(d) },
+            Mut::LatencyBudget(d) => self.latency_budget = LatencyBudgetQosPolicy { duration: dk(d) },
+            Mut::Liveliness(k, d) => self.liveliness = liveliness(*k, d),
+            Mut::Reliability(r, d) => self.reliability = reliability(*r, d),
+            Mut::DestinationOrder(s) => self.destination_order = dest_order(*s),
+            Mut::History(h) => self.history = history(h),
+            Mut::ResourceLimits(a, b, c) => self.resource_limits = limits(a, b, c),
+            Mut::UserData(v) => self.user_data = UserDataQosPolicy { value: v.iter().map(|x| *x as _).collect() },
+            Mut::Ownership(e) => self.ownership = ownership(*e),
+            Mut::TimeBasedFilter(t) => self.time_based_filter = TimeBasedFilterQosPolicy { minimum_separation: dk(&Some(*t)) },
+            Mut::ReaderDataLifecycle(a, b) => {
+                self.reader_data_lifecycle = ReaderDataLifecycleQosPolicy {
+                    autopurge_nowriter_samples_delay: dk(a),
+                    autopurge_disposed_samples_delay: dk(b),
+                }
+            }
+            Mut::Representation(v) => self.representation = DataRepresentationQosPolicy { value: v.iter().map(|x| *x as _).collect() },
+            Mut::TypeConsistency(k, b) => self.type_consistency = type_consistency(*k, *b),
+            _ => {}
+        }
+    }
+    fn inconsistent(&self) -> (Tri, &'static str) {
+        let l = limits_inconsistent(&self.history, &self.resource_limits);
+        if l.0 == Tri::Yes {
+            return l;
+        }
+        // DDS 1.4 2.2.3.12: deadline period >= minimum_separation
+        if dur_lt(&self.deadline.period, &self.time_based_filter.minimum_separation) {
+            return (Tri::Yes, "deadline<minimum_separation");
+        }
+        l
+    }
+    fn immutable_diff(&self, o: &Self) -> (Vec<&'static str>, Vec<&'static str>) {
+        let mut v = vec![];
+        diff!(v, self, o, durability, liveliness, reliability, destination_order, history, resource_limits, ownership, representation);
+        let mut t = vec![];
+        // XTypes 1.3 lists TYPE_CONSISTENCY_ENFORCEMENT as not changeable; DDS 1.4 does not know it -> tolerated
+        diff!(t, self, o, type_consistency);
+        (v, t)
+    }
+}
+
+impl QosModel for PublisherQos {
+    fn apply(&mut self, m: &Mut) {
+        match m {
+            Mut::Presentation(a, c, o) => self.presentation = presentation(*a, *c, *o),
+            Mut::Partition(p) => self.partition = PartitionQosPolicy { name: p.clone() },
+            Mut::GroupData(v) => self.group_data = GroupDataQosPolicy { value: v.iter().map(|x| *x as _).collect() },
+            Mut::EntityFactory(a) => self.entity_factory = EntityFactoryQosPolicy { autoenable_created_entities: *a },
+            _ => {}
+        }
+    }
+    fn inconsistent(&self) -> (Tri, &'static str) {
+        (Tri::No, "")
+    }
+    fn immutable_diff(&self, o: &Self) -> (Vec<&'static str>, Vec<&'static str>) {
+        let mut v = vec![];
+        diff!(v, self, o, presentation);
+        (v, vec![])
+    }
+}
+
+impl QosModel for SubscriberQos {
+    fn apply(&mut self, m: &Mut) {
+        match m {
+            Mut::Presentation(a, c, o) => self.presentation = presentation(*a, *c, *o),
+            Mut::Partition(p) => self.partition = PartitionQosPolicy { name: p.clone() },
+            Mut::GroupData(v) => self.group_data = GroupDataQosPolicy { value: v.iter().map(|x| *x as _).collect() },
+            Mut::EntityFactory(a) => self.entity_factory = EntityFactoryQosPolicy { autoenable_created_entities: *a },
+            _ => {}
+        }
+    }
+    fn inconsistent(&self) -> (Tri, &'static str) {
+        (Tri::No, "")
+    }
+    fn immutable_diff(&self, o: &Self) -> (Vec<&'static str>, Vec<&'static str>) {
+        let mut v = vec![];
+        diff!(v, self, o, presentation);
+        (v, vec![])
+    }
+}
+
+// ------------------------------------------------------------------------------------------------
+// entity access
+
+/// What the second participant sees of the entity, reduced to "which announced policies differ from `q`".
+pub trait Api {
+    type Q: QosModel;
+    async fn set(&self, q: QosKind<Self::Q>) -> R;
+    async fn get(&self) -> Option<DdsResult<Self::Q>>;
+    async fn enable(&self) -> R;
+    /// None = nothing announced (yet); Some(list of policies whose announced value differs from q)
+    async fn announced_diff(&self, obs: &Observer, q: &Self::Q) -> Option<Vec<&'static str>>;
+}
+
+/// The observing participant's builtin readers.
+pub struct Observer {
+    p2: DomainParticipantAsync,
+    pubs: DataReaderAsync<PublicationBuiltinTopicData>,
+    subs: DataReaderAsync<SubscriptionBuiltinTopicData>,
+}
+
+impl Observer {
+    async fn publication(&self, key: [u8; 16]) -> Option<PublicationBuiltinTopicData> {
+        let v = self.pubs.read(10_000, ANY_SAMPLE_STATE, ANY_VIEW_STATE, ANY_INSTANCE_STATE).await.ok()?;
+        v.into_iter().filter_map(|s| s.data).filter(|d| d.key().value == key).last()
+    }
+    async fn subscription(&self, key: [u8; 16]) -> Option<SubscriptionBuiltinTopicData> {
+        let v = self.subs.read(10_000, ANY_SAMPLE_STATE, ANY_VIEW_STATE, ANY_INSTANCE_STATE).await.ok()?;
+        v.into_iter().filter_map(|s| s.data).filter(|d| d.key().value == key).last()
+    }
+}
+
+macro_rules! cmp {
+    ($v:ident, $d:expr, $q:expr, $($f:ident),*) => { $( if $d.$f() != &$q.$f { $v.push(stringify!($f)); } )* };
+}
+
+struct TopicE(TopicAsync);
+impl Api for TopicE {
+    type Q = TopicQos;
+    async fn set(&self, q: QosKind<TopicQos>) -> R {
+        r_of(&call(self.0.set_qos(q)).await)
+    }
+    async fn get(&self) -> Option<DdsResult<TopicQos>> {
+        call(self.0.get_qos()).await
+    }
+    async fn enable(&self) -> R {
+        r_of(&call(self.0.enable()).await)
+    }
+    async fn announced_diff(&self, obs: &Observer, q: &TopicQos) -> Option<Vec<&'static str>> {
+        use dust_dds::dds_async::topic_description::TopicDescriptionAsync;
+        let name = self.0.get_name();
+        let handles = obs.p2.get_discovered_topics().await.ok()?;
+        for h in handles {
+            if let Ok(d) = obs.p2.get_discovered_topic_data(h).await {
+                if d.name() == name {
+                    let mut v = vec![];
+                    cmp!(v, d, q, durability, deadline, latency_budget, liveliness, reliability, transport_priority, lifespan,
+                        destination_order, history, resource_limits, ownership, topic_data, representation);
+                    return Some(v);
+                }
+            }
+        }
+        None
+    }
+}
+
+struct WriterE(DataWriterAsync<KeyedData>);
+impl Api for WriterE {
+    type Q = DataWriterQos;
+    async fn set(&self, q: QosKind<DataWriterQos>) -> R {
+        r_of(&call(self.0.set_qos(q)).await)
+    }
+    async fn get(&self) -> Option<DdsResult<DataWriterQos>> {
+        call(self.0.get_qos()).await
+    }
+    async fn enable(&self) -> R {
+        r_of(&call(self.0.enable()).await)
+    }
+    async fn announced_diff(&self, obs: &Observer, q: &DataWriterQos) -> Option<Vec<&'static str>> {
+        let d = obs.publication(self.0.get_instance_handle().into()).await?;
+        let mut v = vec![];
+        cmp!(v, d, q, durability, deadline, latency_budget, liveliness, reliability, lifespan, user_data, ownership,
+            ownership_strength, destination_order, representation);
+        Some(v)
+    }
+}
+
+struct ReaderE(DataReaderAsync<KeyedData>);
+impl Api for ReaderE {
+    type Q = DataReaderQos;
+    async fn set(&self, q: QosKind<DataReaderQos>) -> R {
+        r_of(&call(self.0.set_qos(q)).await)
+    }
+    async fn get(&self) -> Option<DdsResult<DataReaderQos>> {
+        call(self.0.get_qos()).await
+    }
+    async fn enable(&self) -> R {
+        r_of(&call(self.0.enable()).await)
+    }
+    async fn announced_diff(&self, obs: &Observer, q: &DataReaderQos) -> Option<Vec<&'static str>> {
+        let d = obs.subscription(self.0.get_instance_handle().into()).await?;
+        let mut v = vec![];
+        cmp!(v, d, q, durability, deadline, latency_budget, liveliness, reliability, ownership, destination_order, user_data,
+            time_based_filter, representation, type_consistency);
+        Some(v)
+    }
+}
+
+/// publisher under test + the helper writer through which its policies are announced
+struct PublisherE(PublisherAsync, Option<DataWriterAsync<KeyedData>>);
+impl Api for PublisherE {
+    type Q = PublisherQos;
+    async fn set(&self, q: QosKind<PublisherQos>) -> R {
+        r_of(&call(self.0.set_qos(q)).await)
+    }
+    async fn get(&self) -> Option<DdsResult<PublisherQos>> {
+        call(self.0.get_qos()).await
+    }
+    async fn enable(&self) -> R {
+        R::Ok
+    }
+    async fn announced_diff(&self, obs: &Observer, q: &PublisherQos) -> Option<Vec<&'static str>> {
+        let w = self.1.as_ref()?;
+        let d = obs.publication(w.get_instance_handle().into()).await?;
+        let mut v = vec![];
+        cmp!(v, d, q, presentation, partition, group_data);
+        Some(v)
+    }
+}
+
+struct SubscriberE(SubscriberAsync, Option<DataReaderAsync<KeyedData>>);
+impl Api for SubscriberE {
+    type Q = SubscriberQos;
+    async fn set(&self, q: QosKind<SubscriberQos>) -> R {
+        r_of(&call(self.0.set_qos(q)).await)
+    }
+    async fn get(&self) -> Option<DdsResult<SubscriberQos>> {
+        call(self.0.get_qos()).await
+    }
+    async fn enable(&self) -> R {
+        R::Ok
+    }
+    async fn announced_diff(&self, obs: &Observer, q: &SubscriberQos) -> Option<Vec<&'static str>> {
+        let r = self.1.as_ref()?;
+        let d = obs.subscription(r.get_instance_handle().into()).await?;
+        let mut v = vec![];
+        cmp!(v, d, q, presentation, partition, group_data);
+        Some(v)
+    }
+}
+
+// ------------------------------------------------------------------------------------------------
+
+#[derive(Default, Clone, Debug, Serialize, Deserialize)]
+pub struct Out {
+    pub setup_error: Option<String>,
+    pub mismatches: Vec<Mismatch>,
+    pub classes: Vec<String>,
+    pub ops_done: usize,
+    pub rejections_checked: u32,
+    pub accepted: u32,
+    pub syncs: u32,
+    pub trace: Vec<String>,
+}
+
+impl Out {
+    fn class(&mut self, c: &str) {
+        if !self.classes.iter().any(|x| x == c) {
+            self.classes.push(c.to_string());
+        }
+    }
+    fn mismatch(&mut self, sig: String, what: String) {
+        let tr = self.trace.len();
+        self.mismatches.push((sig, format!("{what} (history: {})", self.trace[tr.saturating_sub(10)..].join("; "))));
+    }
+}
+
+fn build<Q: QosModel>(base: &Q, muts: &[Mut]) -> Q {
+    let mut q = base.clone();
+    for m in muts {
+        q.apply(m);
+    }
+    q
+}
+
+/// Allowed results of set_qos / create with value `q` given the accepted value `cur` and `enabled`.
+fn allowed<Q: QosModel>(cur: Option<&Q>, q: &Q, enabled: bool) -> (Vec<&'static str>, String) {
+    let (inc, rule) = q.inconsistent();
+    let (imm, tol) = match cur {
+        Some(c) if enabled => c.immutable_diff(q),
+        _ => (vec![], vec![]),
+    };
+    let imm_t = if !imm.is_empty() {
+        Tri::Yes
+    } else if !tol.is_empty() {
+        Tri::Either
+    } else {
+        Tri::No
+    };
+    let mut v: Vec<&'static str> = vec![];
+    for i in [false, true] {
+        for m in [false, true] {
+            let i_ok = match inc {
+                Tri::No => !i,
+                Tri::Yes => i,
+                Tri::Either => true,
+            };
+            let m_ok = match imm_t {
+                Tri::No => !m,
+                Tri::Yes => m,
+                Tri::Either => true,
+            };
+            if !(i_ok && m_ok) {
+                continue;
+            }
+            let outs: &[&'static str] = match (i, m) {
+                (false, false) => &["Ok"],
+                (true, false) => &["InconsistentPolicy"],
+                (false, true) => &["ImmutablePolicy"],
+                (true, true) => &["InconsistentPolicy", "ImmutablePolicy"],
+            };
+            for o in outs {
+                if !v.contains(o) {
+                    v.push(o);
+                }
+            }
+        }
+    }
+    let why = format!(
+        "{}{}",
+        if inc != Tri::No { format!("inconsistent[{rule}{}] ", if inc == Tri::Either { " (either)" } else { "" }) } else { String::new() },
+        if enabled && (!imm.is_empty() || !tol.is_empty()) {
+            format!("immutable-changed[{}{}]", imm.join(","), if tol.is_empty() { String::new() } else { format!(" tolerated:{}", tol.join(",")) })
+        } else {
+            String::new()
+        }
+    );
+    (v, why)
+}
+
+/// shape of a set_qos situation for signatures: which rule / which immutable policy (first one)
+fn shape<Q: QosModel>(cur: Option<&Q>, q: &Q, enabled: bool) -> String {
+    let (inc, rule) = q.inconsistent();
+    let imm = match cur {
+        Some(c) if enabled => c.immutable_diff(q).0,
+        _ => vec![],
+    };
+    match (inc, imm.first()) {
+        (Tri::Yes, Some(_)) => format!("inconsistent[{rule}]+immutable"),
+        (Tri::Yes, None) => format!("inconsistent[{rule}]"),
+        (_, Some(p)) => format!("immutable[{p}]"),
+        (Tri::Either, None) => format!("open[{rule}]"),
+        (Tri::No, None) => "valid".to_string(),
+    }
+}
+
+struct Run<'a, E: Api> {
+    kind: Kind,
+    e: &'a E,
+    cur: E::Q,
+    enabled: bool,
+    /// values accepted while enabled (oldest first), for "stale announcement" diagnosis
+    announced_history: Vec<E::Q>,
+    obs: Option<&'a Observer>,
+    out: &'a mut Out,
+}
+
+impl<'a, E: Api> Run<'a, E> {
+    async fn verify_get(&mut self, after: &str) {
+        match self.e.get().await {
+            Some(Ok(q)) => {
+                if q != self.cur {
+                    let k = self.kind.name();
+                    self.out.mismatch(
+                        format!("C37:get_qos:{k}:{after}"),
+                        format!("get_qos of the {k} {after} differs from the last accepted QoS: got {q:?}, accepted {:?}", self.cur),
+                    );
+                    self.cur = q;
+                }
+            }
+            other => {
+                let r = r_of(&other);
+                let k = self.kind.name();
+                self.out.mismatch(format!("C37:get_qos:{k}:returned-{}", r.name()), format!("get_qos of the {k} returned {}", r.name()));
+            }
+        }
+    }
+
+    async fn set(&mut self, q: E::Q, as_default: bool, label: &str) {
+        let k = self.kind.name();
+        let (allow, why) = allowed(Some(&self.cur), &q, self.enabled);
+        let sh = shape(Some(&self.cur), &q, self.enabled);
+        let en = if self.enabled { "enabled" } else { "disabled" };
+        let got = if as_default { self.e.set(QosKind::Default).await } else { self.e.set(QosKind::Specific(q.clone())).await };
+        self.out.trace.push(format!("{label} on {en} {k} [{sh}] -> {}", got.name()));
+        if allow.iter().any(|a| *a != "Ok") {
+            self.out.rejections_checked += 1;
+            self.out.class(&format!("{k}:{en}:{}", sh.split('[').next().unwrap_or("")));
+        } else {
+            self.out.class(&format!("{k}:{en}:valid"));
+        }
+        if got == R::Hang {
+            self.out.mismatch(format!("C37:hang:set_qos:{k}"), "set_qos did not return".into());
+            return;
+        }
+        if !allow.contains(&got.name()) {
+            self.out.mismatch(
+                format!("C37:set_qos:{k}:{en}:{sh}:want-{}-got-{}", allow.join("|"), got.name()),
+                format!("{label} on the {en} {k}: got {}, demanded {} ({why}); requested {q:?}", got.name(), allow.join("|")),
+            );
+        }
+        if got == R::Ok {
+            self.out.accepted += 1;
+            self.cur = q;
+            if self.enabled {
+                self.announced_history.push(self.cur.clone());
+            }
+            self.verify_get("after-accepted-set_qos").await;
+        } else {
+            self.verify_get("after-rejected-set_qos").await;
+        }
+    }
+
+    async fn sync(&mut self) {
+        let Some(obs) = self.obs else { return };
+        if !self.enabled {
+            return;
+        }
+        let k = self.kind.name();
+        self.out.syncs += 1;
+        self.out.class(&format!("{k}:e2e-checkpoint"));
+        // quiescence: bounded virtual wait for the announcement to show the accepted value
+        let mut last: Option<Vec<&'static str>> = None;
+        let e = self.e;
+        let cur = self.cur.clone();
+        let ok = {
+            let last_ref = &mut last;
+            let mut waited = 0u64;
+            loop {
+                let d = e.announced_diff(obs, &cur).await;
+                let done = matches!(&d, Some(v) if v.is_empty());
+                *last_ref = d;
+                if done {
+                    break true;
+                }
+                if waited >= 4_000 {
+                    break false;
+                }
+                exec::sleep_ms(250).await;
+                waited += 250;
+            }
+        };
+        self.out.trace.push(format!("checkpoint -> {}", if ok { "announced == accepted".to_string() } else { format!("{last:?}") }));
+        if ok {
+            return;
+        }
+        match last {
+            None => self.out.mismatch(
+                format!("C37:announce:{k}:nothing-announced"),
+                format!("4 s after the last change the observing participant still has no announcement of the enabled {k}"),
+            ),
+            Some(diff) => {
+                // does the announcement equal an older accepted value? then the change was not re-announced
+                let mut stale = false;
+                for old in self.announced_history.iter().rev().skip(1) {
+                    if matches!(e.announced_diff(obs, old).await, Some(v) if v.is_empty()) {
+                        stale = true;
+                        break;
+                    }
+                }
+                let what = if stale { "change-not-reannounced".to_string() } else { format!("wrong-value[{}]", diff[0]) };
+                self.out.mismatch(
+                    format!("C37:announce:{k}:{what}"),
+                    format!(
+                        "4 s after the last accepted set_qos the observing participant's builtin data of the {k} differs from get_qos in {:?}{}; accepted {:?}",
+                        diff,
+                        if stale { " and equals an earlier accepted QoS" } else { "" },
+                        self.cur
+                    ),
+                );
+            }
+        }
+    }
+
+    async fn ops(&mut self, ops: &[Op]) {
+        for op in ops {
+            self.out.ops_done += 1;
+            match op {
+                Op::SetQos { from_default, muts } => {
+                    let base = if *from_default { E::Q::default() } else { self.cur.clone() };
+                    let q = build(&base, muts);
+                    let label = format!("set_qos({}{})", if *from_default { "default+" } else { "current+" }, muts.iter().map(|m| m.policy()).collect::<Vec<_>>().join("+"));
+                    self.set(q, false, &label).await;
+                }
+                Op::SetDefault => {
+                    let q = E::Q::default();
+                    // on an enabled entity whose immutable policies differ from the default the documented result
+                    // ("cannot modify the immutable QoS") is not pinned down: skipped
+                    let (imm, tol) = self.cur.immutable_diff(&q);
+                    if self.enabled && (!imm.is_empty() || !tol.is_empty()) {
+                        self.out.class("set-default-skipped");
+                        continue;
+                    }
+                    self.set(q, true, "set_qos(QosKind::Default)").await;
+                }
+                Op::Enable => {
+                    let r = self.e.enable().await;
+                    let k = self.kind.name();
+                    self.out.trace.push(format!("enable -> {}", r.name()));
+                    if r != R::Ok {
+                        self.out.mismatch(format!("C37:enable:{k}:got-{}", r.name()), format!("enable of the {k} returned {}", r.name()));
+                    } else if !self.enabled {
+                        self.enabled = true;
+                        self.announced_history.push(self.cur.clone());
+                        self.out.class(&format!("{k}:enabled-later"));
+                    }
+                    self.verify_get("after-enable").await;
+                }
+                Op::Sync => self.sync().await,
+            }
+        }
+        self.sync().await;
+    }
+}
+
+/// Creation with a generated QoS: inconsistent -> InconsistentPolicy and nothing created.
+fn check_create<Q: QosModel>(out: &mut Out, kind: Kind, q: &Q, got: &R) -> bool {
+    let k = kind.name();
+    let (allow, why) = allowed::<Q>(None, q, false);
+    let sh = shape::<Q>(None, q, false);
+    out.trace.push(format!("create {k} [{sh}] -> {}", got.name()));
+    if allow.iter().any(|a| *a != "Ok") {
+        out.rejections_checked += 1;
+        out.class(&format!("{k}:create:{}", sh.split('[').next().unwrap_or("")));
+    }
+    if !allow.contains(&got.name()) {
+        out.mismatch(
+            format!("C37:create:{k}:{sh}:want-{}-got-{}", allow.join("|"), got.name()),
+            format!("creating the {k}: got {}, demanded {} ({why}); requested {q:?}", got.name(), allow.join("|")),
+        );
+    }
+    *got == R::Ok
+}
+
+async fn scenario(c: Case) -> Out {
+    let mut out = Out::default();
+    let f = factory();
+    macro_rules! setup {
+        ($e:expr, $what:expr) => {
+            match call($e).await {
+                Some(Ok(v)) => v,
+                _ => {
+                    out.setup_error = Some(format!("{} failed", $what));
+                    return out;
+                }
+            }
+        };
+    }
+    let p1 = setup!(f.create_participant(0, QosKind::Default, NO_LISTENER, NO_STATUS), "create_participant");
+    exec::with_world(|w| w.net.log_enabled = false);
+    let observer = if c.e2e {
+        let p2 = setup!(f.create_participant(0, QosKind::Default, NO_LISTENER, NO_STATUS), "create_participant 2");
+        let bs = p2.get_builtin_subscriber();
+        let pubs = match call(bs.lookup_datareader::<PublicationBuiltinTopicData>("DCPSPublication")).await {
+            Some(Ok(Some(r))) => r,
+            _ => {
+                out.setup_error = Some("builtin DCPSPublication reader not found".into());
+                return out;
+            }
+        };
+        let subs = match call(bs.lookup_datareader::<SubscriptionBuiltinTopicData>("DCPSSubscription")).await {
+            Some(Ok(Some(r))) => r,
+            _ => {
+                out.setup_error = Some("builtin DCPSSubscription reader not found".into());
+                return out;
+            }
+        };
+        let h1 = p1.get_instance_handle();
+        let seen = wait_until(20_000, 50, || async { p2.get_discovered_participants().await.map(|v| v.contains(&h1)).unwrap_or(false) }).await;
+        if !seen {
+            out.setup_error = Some("participants did not discover each other within 20 s".into());
+            return out;
+        }
+        Some(Observer { p2, pubs, subs })
+    } else {
+        None
+    };
+    let obs = observer.as_ref();
+    out.class(if c.e2e { "e2e" } else { "local-only" });
+    let kind = c.kind;
+    let part_level = matches!(kind, Kind::Topic | Kind::Publisher | Kind::Subscriber);
+    if part_level && !c.autoenable {
+        let q = DomainParticipantQos { entity_factory: EntityFactoryQosPolicy { autoenable_created_entities: false }, ..Default::default() };
+        setup!(p1.set_qos(QosKind::Specific(q)), "participant set_qos");
+    }
+    let helper_topic = |name: &'static str| p1.create_topic::<KeyedData>(name, "KeyedData", QosKind::Default, NO_LISTENER, NO_STATUS);
+    match kind {
+        Kind::Topic => {
+            let cq = c.create.as_ref().map(|m| build(&TopicQos::default(), m));
+            let mut r = call(p1.create_topic::<KeyedData>(
+                "UT",
+                "KeyedData",
+                cq.clone().map(QosKind::Specific).unwrap_or(QosKind::Default),
+                NO_LISTENER,
+                NO_STATUS,
+            ))
+            .await;
+            let mut cur = cq.clone().unwrap_or_default();
+            if !check_create(&mut out, kind, &cur, &r_of(&r)) {
+                if matches!(r, Some(Ok(_))) {
+                    // created although it should not: go on with what exists
+                } else {
+                    r = call(p1.create_topic::<KeyedData>("UT", "KeyedData", QosKind::Default, NO_LISTENER, NO_STATUS)).await;
+                    cur = TopicQos::default();
+                }
+            }
+            let Some(Ok(t)) = r else {
+                out.setup_error = Some("create_topic with default QoS failed".into());
+                return out;
+            };
+            let e = TopicE(t);
+            let mut run = Run { kind, e: &e, cur: cur.clone(), enabled: c.autoenable, announced_history: if c.autoenable { vec![cur] } else { vec![] }, obs, out: &mut out };
+            run.verify_get("after-create").await;
+            run.ops(&c.ops).await;
+        }
+        Kind::Publisher => {
+            let cq = c.create.as_ref().map(|m| build(&PublisherQos::default(), m));
+            let r = call(p1.create_publisher(cq.clone().map(QosKind::Specific).unwrap_or(QosKind::Default), NO_LISTENER, NO_STATUS)).await;
+            let cur = cq.unwrap_or_default();
+            check_create(&mut out, kind, &cur, &r_of(&r));
+            let Some(Ok(p)) = r else {
+                out.setup_error = Some("create_publisher failed".into());
+                return out;
+            };
+            // helper writer through which the publisher's policies reach the network
+            let mut w = None;
+            if c.e2e && c.autoenable {
+                let t = setup!(helper_topic("HT"), "helper topic");
+                let hw = setup!(p.create_datawriter::<KeyedData>(&t, QosKind::Default, NO_LISTENER, NO_STATUS), "helper writer");
+                setup!(hw.enable(), "helper writer enable");
+                w = Some(hw);
+            }
+            let e = PublisherE(p, w);
+            let mut run = Run { kind, e: &e, cur: cur.clone(), enabled: c.autoenable, announced_history: if c.autoenable { vec![cur] } else { vec![] }, obs, out: &mut out };
+            run.verify_get("after-create").await;
+            run.ops(&c.ops).await;
+        }
+        Kind::Subscriber => {
+            let cq = c.create.as_ref().map(|m| build(&SubscriberQos::default(), m));
+            let r = call(p1.create_subscriber(cq.clone().map(QosKind::Specific).unwrap_or(QosKind::Default), NO_LISTENER, NO_STATUS)).await;
+            let cur = cq.unwrap_or_default();
+            check_create(&mut out, kind, &cur, &r_of(&r));
+            let Some(Ok(s)) = r else {
+                out.setup_error = Some("create_subscriber failed".into());
+                return out;
+            };
+            let mut rd = None;
+            if c.e2e && c.autoenable {
+                let t = setup!(helper_topic("HT"), "helper topic");
+                let hr = setup!(s.create_datareader::<KeyedData>(&t, QosKind::Default, NO_LISTENER, NO_STATUS), "helper reader");
+                setup!(hr.enable(), "helper reader enable");
+                rd = Some(hr);
+            }
+            let e = SubscriberE(s, rd);
+            let mut run = Run { kind, e: &e, cur: cur.clone(), enabled: c.autoenable, announced_history: if c.autoenable { vec![cur] } else { vec![] }, obs, out: &mut out };
+            run.verify_get("after-create").await;
+            run.ops(&c.ops).await;
+        }
+        Kind::Writer => {
+            let t = setup!(helper_topic("HT"), "helper topic");
+            let pq = PublisherQos { entity_factory: EntityFactoryQosPolicy { autoenable_created_entities: c.autoenable }, ..Default::default() };
+            let p = setup!(p1.create_publisher(QosKind::Specific(pq), NO_LISTENER, NO_STATUS), "create_publisher");
+            let cq = c.create.as_ref().map(|m| build(&DataWriterQos::default(), m));
+            let mut r = call(p.create_datawriter::<KeyedData>(&t, cq.clone().map(QosKind::Specific).unwrap_or(QosKind::Default), NO_LISTENER, NO_STATUS)).await;
+            let mut cur = cq.unwrap_or_default();
+            if !check_create(&mut out, kind, &cur, &r_of(&r)) && !matches!(r, Some(Ok(_))) {
+                r = call(p.create_datawriter::<KeyedData>(&t, QosKind::Default, NO_LISTENER, NO_STATUS)).await;
+                cur = DataWriterQos::default();
+            }
+            let Some(Ok(w)) = r else {
+                out.setup_error = Some("create_datawriter with default QoS failed".into());
+                return out;
+            };
+            let e = WriterE(w);
+            let mut run = Run { kind, e: &e, cur: cur.clone(), enabled: c.autoenable, announced_history: if c.autoenable { vec![cur] } else { vec![] }, obs, out: &mut out };
+            run.verify_get("after-create").await;
+            run.ops(&c.ops).await;
+        }
+        Kind::Reader => {
+            let t = setup!(helper_topic("HT"), "helper topic");
+            let sq = SubscriberQos { entity_factory: EntityFactoryQosPolicy { autoenable_created_entities: c.autoenable }, ..Default::default() };
+            let s = setup!(p1.create_subscriber(QosKind::Specific(sq), NO_LISTENER, NO_STATUS), "create_subscriber");
+            let cq = c.create.as_ref().map(|m| build(&DataReaderQos::default(), m));
+            let mut r = call(s.create_datareader::<KeyedData>(&t, cq.clone().map(QosKind::Specific).unwrap_or(QosKind::Default), NO_LISTENER, NO_STATUS)).await;
+            let mut cur = cq.unwrap_or_default();
+            if !check_create(&mut out, kind, &cur, &r_of(&r)) && !matches!(r, Some(Ok(_))) {
+                r = call(s.create_datareader::<KeyedData>(&t, QosKind::Default, NO_LISTENER, NO_STATUS)).await;
+                cur = DataReaderQos::default();
+            }
+            let Some(Ok(rd)) = r else {
+                out.setup_error = Some("create_datareader with default QoS failed".into());
+                return out;
+            };
+            let e = ReaderE(rd);
+            let mut run = Run { kind, e: &e, cur: cur.clone(), enabled: c.autoenable, announced_history: if c.autoenable { vec![cur] } else { vec![] }, obs, out: &mut out };
+            run.verify_get("after-create").await;
+            run.ops(&c.ops).await;
+        }
+    }
+    out
+}
+
+pub fn eval(case: &Case) -> CaseResult {
+    let mut res = CaseResult::default();
+    match exec::run(scenario(case.clone())) {
+        Ok(out) => {
+            if let Some(e) = &out.setup_error {
+                res.harness_error = Some(e.clone());
+            } else {
+                res.verdict = pick_verdict("C37", &out.mismatches);
+                res.classes = out.classes.clone();
+                res.nontrivial = out.rejections_checked >= 1 || out.syncs >= 1;
+                let mut sigs: Vec<String> = out.mismatches.iter().map(|m| m.0.clone()).collect();
+                sigs.dedup();
+                res.info = json!({
+                    "ops_done": out.ops_done, "rejections_checked": out.rejections_checked, "accepted": out.accepted,
+                    "checkpoints": out.syncs, "mismatch_signatures": sigs, "trace": out.trace,
+                });
+            }
+        }
+        Err(a) => apply_abort("C37", &mut res, a),
+    }
+    res.sim = sim_stats();
+    res
+}
+
+pub fn main(ctx: &Ctx) {
+    let thorough = ctx.tier == vcore::Tier::Thorough;
+    campaign(
+        ctx,
+        Campaign {
+            total_cases: ctx.pick(1_500, 75_000),
+            max_shrink_iters: 400,
+            limits: Limits { cpu_s: 30, wall_s: 120, as_bytes: 4 << 30 },
+            meta: Meta {
+                rule: "one entity under test (topic, publisher, subscriber, writer, reader), created with a generated QoS (default or default + 0-3 policy changes) by a factory with autoenable on/off, then 1-12(24) ops: set_qos(current or default QoS + 1-3 generated policy changes over the entity's whole policy set, incl. depth>max_samples_per_instance, max_samples<max_samples_per_instance, deadline<minimum_separation, several writer representations), set_qos(Default), enable, and in 20% of the cases (second participant) discovery checkpoints; expected result from the DDS 1.4 consistency rules and Changeable column; get_qos compared with the last accepted value after every call; at checkpoints the observer's DCPSPublication/DCPSSubscription/discovered-topic data must equal the accepted QoS within 4 s virtual; non-trivial = at least one rejection (InconsistentPolicy/ImmutablePolicy) was due or one discovery checkpoint ran; distinct = hash of the case",
+                assumptions: &[
+                    "deterministic simulation, async API; durations are multiples of 1/512 s so that every time representation holds them exactly",
+                    "immutable once enabled (DDS 1.4 table + XTypes 1.3): durability, liveliness, reliability, destination_order, history, resource_limits, ownership, presentation, data representation; everything else changeable",
+                    "tolerated: limited max_samples with unlimited max_samples_per_instance (Ok or InconsistentPolicy); writer with more than one data representation (Ok or InconsistentPolicy, dust-dds documents the latter); changing TYPE_CONSISTENCY_ENFORCEMENT on an enabled reader (Ok or ImmutablePolicy); both error codes when a value is inconsistent and changes an immutable policy; set_qos(Default) on an enabled entity whose immutable policies differ from the default is skipped",
+                    "publishers/subscribers cannot be enabled later (PublisherAsync/SubscriberAsync::enable are todo!()): they are enabled at creation or never; their policies are observed through a helper writer/reader",
+                    "the case verdict is the first mismatch whose signature is not a listed known finding",
+                ],
+                nontrivial_floor: 300,
+            },
+        },
+        strategy(thorough),
+        eval,
+    );
 }
